@@ -515,8 +515,8 @@ class Respondent(httping.Parsent):
                            httping.MOVED_PERMANENTLY,
                            httping.FOUND,
                            httping.SEE_OTHER,
-                           httping.TEMPORARY_REDIRECT):
-            self.redirectant = True
+                           httping.TEMPORARY_REDIRECT) and self.headers.get('location'):
+            self.redirectant = True  # only when there is a location to redirect to
 
         self.headed = True
         yield True
